@@ -8,7 +8,9 @@ correspondence run. Database contents are `Nat` (0 = the empty database).
        v8 entry  = <id>,<dir01>,<index.term|->,<content|->
        v10 entry = <id>,<index.term|->,<content|->,<crccontent|->
   plan <id>,<index.term>|none   /   plantmp <0|1>   → ok
-  start | startold                         → ok | err <kind>     (Upgrade7To8 then Upgrade8To10)
+  start | startold | startcore             → ok | err <kind>     (Upgrade7To8 then Upgrade8To10; startold: before
+                                            5a94866; startcore: before the empty-directory fix)
+  hasdata                                  → ok      (store.HasData before Store.Open: creates an empty wsnapshots)
   cut78 <s | rt/<v8dir> | b/<v8dir> | ro/<v7dir>>                → ok
   cut810 <s | pt | ip/<k>/<cut8> | pd | cl/<v10dir>/<v8dir>>     → ok
        cut8 = n | mt | ft | rj/<v8dir>
@@ -189,6 +191,11 @@ def step (d : DState) (line : String) : DState × String :=
     match parseCut810 c with
     | some c => ({ s := startCut 0 d.s (.in810 c) }, "ok")
     | none => (d, "bad-op")
+  | ["hasdata"] => ({ s := hasData d.s }, "ok")
+  | ["startcore"] =>
+    match startCore 0 d.s with
+    | .ok s' => ({ s := s' }, "ok")
+    | .error e => (d, errStr e)
   | ["dump"] => (d, dump d.s)
   | _ => (d, "bad-op")
 
